@@ -798,6 +798,8 @@ void body(const Case &c)
         cfg                 = hc;
         at                  = sdkmet::AggregationType::kHistogram;
       }
+      else if (c.knob(fmt("view%d_explicit_agg", v).c_str(), 0))
+        at = sdkmet::AggregationType::kSum;  // spelled out: must behave like the default
       std::unique_ptr<sdkmet::View> view(new sdkmet::View(
           c.knob(fmt("view%d_named", v).c_str(), 1) ? fmt("view%d", v) : std::string(), "", "", at,
           cfg, std::move(ap)));
@@ -1396,6 +1398,7 @@ void generate(const std::string &prop, Rng &wl, Rng &fl, Case &c)
       c.set(fmt("view%d_filter", v).c_str(),
             prop == "C06" ? kAllKeys : (wl.chance(0.3) ? kAllKeys : (int64_t)wl.range(0, 30)));
       c.set(fmt("view%d_minmax", v).c_str(), wl.chance(0.8));
+      c.set(fmt("view%d_explicit_agg", v).c_str(), wl.chance(0.5));
     }
     if (nviews)
       stratum = "api_views";
